@@ -21,7 +21,7 @@ import os
 from .. import stream, tlc
 from ..common import workdir, rm_workdir, seed, MachineryError
 
-ALLF = ('stop', 'undef_elem', 'undef_elem2', 'undef_seq', 'shrink1', 'grow1', 'shrink3', 'grow3', 'shrink4', 'grow4')
+ALLF = ('stop', 'stopff', 'undef_elem', 'undef_elem2', 'undef_seq', 'shrink1', 'grow1', 'shrink3', 'grow3', 'shrink4', 'grow4')
 
 
 def prefixes_and_suffixes(run, cases):
@@ -92,13 +92,13 @@ def run(run):
         thorough = run.tier == 'thorough'
         r = seed()
         rot = lambda xs, k: tuple(xs[(r + i) % len(xs)] for i in range(k))
-        faults_q = ('stop', 'undef_elem', 'undef_elem2') + rot(ALLF[3:], 3)
+        faults_q = ('stop', 'stopff', 'undef_elem', 'undef_elem2') + rot(ALLF[4:], 3)
         plans = [('n<=2, %s' % ('all faults' if thorough else 'faults ' + ','.join(faults_q)),
                   dict(maxmsgs=2, pool=(1, 2, 3, 4, 5), seps=(1, 2, 3) if thorough else (1, 2 + r % 2), faults=ALLF if thorough else faults_q, cuts=True)),
                  ('n<=3 uniform separators', dict(maxmsgs=3, pool=(1, 3, 4) if thorough else (1, 4), seps=(1, 3) if thorough else (3,),
-                                                 faults=ALLF if thorough else ('stop', 'undef_seq', 'shrink4', 'grow1'), uniform=True))]
+                                                 faults=ALLF if thorough else ('stopff', 'undef_seq', 'shrink4', 'grow1'), uniform=True))]
         # the same scanner with expected values not enforced (ignore_value_expectation): only the stop signature is waived
-        plans.append(('n<=2, values not enforced', dict(maxmsgs=2, pool=(1, 4), seps=(1,), faults=('stop', 'undef_elem', 'shrink4', 'grow3'), modes=stream.IVE_MODES)))
+        plans.append(('n<=2, values not enforced', dict(maxmsgs=2, pool=(1, 4), seps=(1,), faults=('stop', 'stopff', 'undef_elem', 'shrink4', 'grow3'), modes=stream.IVE_MODES)))
         allcases = []
         for i, (label, kw) in enumerate(plans):
             res = stream.tlc_run(wd, 'MC_c12_%d' % i, **kw)
